@@ -29,6 +29,20 @@ CORPUS = [
      "ops": [{"op": "settle"}] + [{"op": "emit", "node": 1, "val": v, "md": []} for v in (21, 22, 23, 24, 25, 26)] +
             [{"op": "emit", "node": 0, "val": 1, "md": []}, {"op": "sinkdone", "tok": 0}, {"op": "emit", "node": 0, "val": 2, "md": []}, {"op": "sinkdone", "tok": 1},
              {"op": "emit", "node": 0, "val": 3, "md": []}, {"op": "sinkdone", "tok": 2}, {"op": "advance", "dt": 1}]},
+    # map_async(parallelism=1): the third emission waits for a slot; the first job completes in the SAME loop callback in which a
+    # fourth emission is made.  Before d0c8660 every waiting insert job polled for the slot and the fourth overtook the third ([1,2,4,3]).
+    {"mode": "async", "flavour": "future", "nodes": [{"kind": "source", "ups": []}, {"kind": "map_async", "f": ["id"], "parallelism": 1, "ups": [0]},
+                                                      {"kind": "sink", "mode": "sync", "f": ["id"], "ups": [1]}],
+     "ops": [{"op": "settle"}] + [{"op": "emit", "node": 0, "val": v, "md": []} for v in (1, 2, 3)] +
+            [{"op": "multi", "ops": [{"op": "jobdone", "job": 0}, {"op": "emit", "node": 0, "val": 4, "md": []}]},
+             {"op": "jobdone", "job": 1}, {"op": "jobdone", "job": 2}, {"op": "jobdone", "job": 3}]},
+    # the same race through an awaitable consumer: the consumer's completion and the emission share a loop callback
+    {"mode": "async", "flavour": "coro", "nodes": [{"kind": "source", "ups": []}, {"kind": "map_async", "f": ["inc"], "parallelism": 1, "ups": [0]},
+                                                    {"kind": "sink", "mode": "async", "ups": [1]}],
+     "ops": [{"op": "settle"}] + [{"op": "emit", "node": 0, "val": v, "md": []} for v in (1, 2, 3)] +
+            [{"op": "jobdone", "job": 0}, {"op": "multi", "ops": [{"op": "sinkdone", "tok": 0}, {"op": "emit", "node": 0, "val": 4, "md": []}]},
+             {"op": "jobdone", "job": 1}, {"op": "sinkdone", "tok": 1}, {"op": "jobdone", "job": 2}, {"op": "sinkdone", "tok": 2},
+             {"op": "jobdone", "job": 3}, {"op": "sinkdone", "tok": 3}]},
 ]
 
 
@@ -60,6 +74,8 @@ def run(ctx):
     ctx.audit(extra_modules=lean_extra("C02"))
     n = 150 if not ctx.thorough() else 5000
     A.sweep(ctx, n, KINDS, ["lossless"], SIGS, corpus=CORPUS, p_zip=0.25)
+    # completions racing emissions: a completion and one or two emissions in ONE loop callback (no settling in between)
+    A.sweep(ctx, n // 3, KINDS, ["lossless"], SIGS, p_zip=0.1, opts={"p_multi": 0.3})
     for m in corr_modules():
         m.run(ctx, "C02", 40 if not ctx.thorough() else 1500)
     ctx.coverage["rule"] = ("random pipelines source -> sync* -> A -> sync* [-> A'] -> sink(s), or two sources joined by zip(maxsize), A in "
